@@ -131,7 +131,8 @@ fn side(rng: &mut Rng) -> String {
     for _ in 0..1 + rng.below(3) {
         push(&mut s, *rng.pick(OUT_RULES));
     }
-    if rng.chance(35) {
+    // 0-3 constraints (`constraint_0`, `constraint_1`, .. in control_translate)
+    for _ in 0..rng.weighted(&[62, 24, 10, 4]) {
         push(&mut s, *rng.pick(CONSTRAINTS));
     }
     s
